@@ -3,7 +3,7 @@ from __future__ import annotations
 import re
 from dataclasses import dataclass
 from enum import Enum
-from string import hexdigits
+from string import digits, hexdigits
 from typing import Literal, TypeAlias, TypeGuard, cast, overload
 
 from xdsl.utils.exceptions import ParseError
@@ -386,7 +386,9 @@ class MLIRLexer(Lexer[MLIRTokenKind]):
         if current_char == '"':
             return self._lex_string_literal(start_pos)
 
-        if current_char.isnumeric():
+        # Only ASCII digits start a number: str.isnumeric() also holds for characters
+        # such as '²' or '½' that int() and float() do not understand.
+        if current_char in digits:
             return self._lex_number(start_pos)
 
         raise ParseError(
